@@ -224,10 +224,12 @@ func OpenBucket(urlStr string, bucketName string, mode OpenMode) (b *Bucket, err
 	}
 	// only schedule expiration if bucket is not new. The bucket is in the registry by now, so a write through another
 	// handle may already have armed the timer (or the timer may be running): take the expiry manager's lock.
+	// (The next deadline is read before the expiry manager's lock is taken: a handle being closed holds the bucket
+	// mutex while it stops the expiry manager, so the two locks must not be nested the other way round here.)
 	if vers != 0 {
-		bucket.expManager.mutex.Lock()
-		bucket._scheduleExpiration()
-		bucket.expManager.mutex.Unlock()
+		if nextExp, expErr := bucket.nextExpiration(); expErr == nil && nextExp > 0 {
+			bucket.expManager.scheduleExpirationAtOrBefore(nextExp)
+		}
 	}
 
 	return bucketCopy, err
